@@ -28,7 +28,7 @@ class Layout:
 
     def _cw(self):
         """text of an ordinary comment; sometimes it mentions a doc marker further along (still an ordinary comment)"""
-        extra = [f"zn7 was: integer :: old !{self.docmark} zn8 old doc", f"zn9 remark !{self.docmark} zn10", f"zn11 see !{self.predocmark} zn12 and !{self.docmark_alt} zn13"]
+        extra = ["zn14 cf. znhelper(3) and call znother(1)", f"zn7 was: integer :: old !{self.docmark} zn8 old doc", f"zn9 remark !{self.docmark} zn10", f"zn11 see !{self.predocmark} zn12 and !{self.docmark_alt} zn13"]
         return self.rng.choice(COMMENT_WORDS + extra) if self.rng.random() < 0.3 else self.rng.choice(COMMENT_WORDS)
 
     def _empty_doc(self, ind, k):
@@ -132,7 +132,20 @@ class Layout:
             if inner:
                 k = rng.choice(inner)
                 self.features.add("break_inside_literal")
-                return [ind + text[:k] + "&", ind + " " * rng.choice([0, 2, 5]) + "&" + text[k:]]
+                lead = lambda: ind + " " * rng.choice([0, 2, 5])  # noqa: E731
+                # sometimes a second break further along: inside the same (or a later) literal, or between tokens after it
+                later_in = [i for i in inner if i > k + 1]
+                later_out = [q for q in lexer.break_points(text) if q > k + 1]
+                r2 = rng.random()
+                if r2 < 0.3 and later_in:
+                    k2 = rng.choice(later_in)
+                    self.features.add("literal_over_three_lines")
+                    return [ind + text[:k] + "&", lead() + "&" + text[k:k2] + "&", lead() + "&" + text[k2:]]
+                if r2 < 0.6 and later_out:
+                    k2 = rng.choice(later_out)
+                    self.features.add("literal_break_then_token_break")
+                    return [ind + text[:k] + "&", lead() + "&" + text[k:k2].rstrip() + rng.choice([" &", " & ! " + self._cw()]), lead() + rng.choice(["", "& "]) + text[k2:].strip()]
+                return [ind + text[:k] + "&", lead() + "&" + text[k:]]
         pts = lexer.break_points(text)
         if not pts:
             return [ind + text]
